@@ -291,7 +291,14 @@ func ruleP07HB(p *Prog, r *Report) {
 	}
 	r.check(okDone && send != nil, rule, "send-before-done", p.pos(wl.Pos()), "every worker sends its result before signalling Done", "a worker can signal Done before (or without) sending its result: the channel may be closed early")
 	if send != nil {
-		onlyS := len(guardsOf(send.Block())) == 0
+		// (unconditional inside the worker; the conditions under which the worker is started
+		// are the "spawn" obligation)
+		onlyS := true
+		for _, g := range guardsOf(send.Block()) {
+			if g.If == nil || g.If.Parent() == send.Parent() {
+				onlyS = false
+			}
+		}
 		r.check(onlyS, rule, "send-always", p.instrPos(send), "every worker sends exactly one result", "a worker may skip sending its result (the collector would miss a batch)")
 	}
 	// closer: Wait then close, single close site
